@@ -5,7 +5,7 @@ set -u
 PATCH=$(readlink -f "$1"); shift
 WT=/tmp/mt-$$-$RANDOM
 git -C /repo worktree add -q --detach "$WT" HEAD || exit 3
-trap 'git -C /repo worktree remove --force "$WT" >/dev/null 2>&1; rm -rf "$WT"' EXIT
+trap 'git -C /repo worktree remove --force "$WT" >/dev/null 2>&1; rm -rf "$WT"; /verif/lib/retranslate.py >/dev/null 2>&1' EXIT
 if ! git -C "$WT" apply "$PATCH"; then echo "PATCH DOES NOT APPLY"; exit 3; fi
 cd /verif
 for P in "$@"; do
